@@ -316,7 +316,8 @@ class SyncGen:
                     c.append("send")
                     if t == receiver: c += ["recv", "tryrecv", "tryrecv"]
                 if "park" in self.feats:
-                    c.append("park")
+                    if not (self.safe and any(i["op"] == "park" for i in tb.code)):
+                        c.append("park")        # safe: at most one park per thread (open finding F15)
                     c.append("unpark")
                 if "notify" in self.feats:
                     c.append("notify")
@@ -324,6 +325,8 @@ class SyncGen:
                 if "arc" in self.feats and t in arc_threads and t not in dropped: c += ["acount", "aclone", "agetmut"]
                 if "cell" in self.feats and "mutex" not in self.feats and "rw" not in self.feats: c.append("cell")
                 if "yield" in self.feats: c.append("yield")
+                if not c:
+                    break
                 w = rng.choice(c)
                 before = len(tb.code)
                 if w == "atom":
@@ -434,6 +437,13 @@ def syncmix(tier, seed, avoid=()):
              ["park", "atom"], ["notify", "atom"], ["mutex", "cv"], ["mutex", "cv", "atom"], ["arc", "atom"],
              ["arc", "mutex"], ["atom", "mutex", "chan", "park", "notify"], ["atom"], ["chan", "notify", "mutex"],
              ["rw", "atom", "mutex"], ["yield", "atom", "mutex"]]
+    # directed core: the property's own example and the shapes of the open completeness findings
+    progs.append(wrap([[st("x", 1, "sc"), ld("x", "sc")], [ld("x", "sc"), st("x", 2, "sc")]], [], name="C01-example"))
+    progs.append(P("F13-trylock-held", SJ(2) + JJ(2), CS("m", ld("x")), [L("trylock", "m"), br(1, 1, 1), L("unlock", "m")]))
+    progs.append(P("F9-tryrecv-vs-send", [spawn(2), L("tryrecv", "ch"), join(2), L("droprx", "ch")], [L("send", "ch", v=5)]))
+    progs.append(P("F14-count-vs-drop", [spawn(2), L("acount", "a1"), join(2), L("adrop", "a1")], [L("adrop", "a2")],
+                   arcs={"A": {"h0": ["a1", "a2"], "cell": ""}}))
+    progs.append(P("F15-park-twice", [spawn(2), spawn(3), unpark(2), join(2), join(3)], [L("park"), L("park")], [unpark(2)]))
     per = 6 if tier == "quick" else 60
     for feats in mixes:
         k = 0
@@ -465,3 +475,378 @@ def waived(p):
     if ops & {"acount", "agetmut", "aunwrap"}:
         w["complete"] = "F14"       # Arc inspections: single last-access slot per class
     return w
+
+
+# ============================================================================================
+# Directed shapes per property
+# ============================================================================================
+def P(name, *threads, arcs=None, tags=()):
+    p = {"threads": [list(t) for t in threads], "name": name, "tags": list(tags)}
+    if arcs:
+        p["arcs"] = arcs
+    return p
+
+
+def L(op, o="", **kw):
+    return I(op, o, **kw)
+
+
+def race_idioms():
+    out = []
+    A = out.append
+    sj = lambda n: [spawn(t) for t in range(2, n + 2)]
+    jj = lambda n: [join(t) for t in range(2, n + 2)]
+    # spawn / join edges
+    A(P("spawn-ok", [wr("c"), spawn(2), join(2)], [rd("c")]))
+    A(P("spawn-racy", [spawn(2), wr("c"), join(2)], [rd("c")]))
+    A(P("join-ok", [spawn(2), join(2), rd("c")], [wr("c")]))
+    A(P("join-racy", [spawn(2), rd("c"), join(2)], [wr("c")]))
+    A(P("rd-rd-ok", [spawn(2), rd("c"), join(2)], [rd("c")]))
+    A(P("wr-wr-racy", [spawn(2), spawn(3), join(2), join(3)], [wr("c")], [wr("c")]))
+    # mutex hand-over
+    A(P("mutex-ok", sj(2) + jj(2), [L("lock", "m"), wr("c"), L("unlock", "m")], [L("lock", "m"), rd("c"), L("unlock", "m")]))
+    A(P("mutex-racy", sj(2) + jj(2), [L("lock", "m"), wr("c"), L("unlock", "m")], [L("lock", "m"), L("unlock", "m"), rd("c")]))
+    A(P("mutex-2locks-racy", sj(2) + jj(2), [L("lock", "m"), wr("c"), L("unlock", "m")], [L("lock", "n"), wr("c"), L("unlock", "n")]))
+    # rwlock
+    A(P("rw-ok", sj(3) + jj(3), [L("write", "l"), wr("c"), L("unlockw", "l")], [L("read", "l"), rd("c"), L("unlockr", "l")],
+        [L("read", "l"), rd("c"), L("unlockr", "l")]))
+    A(P("rw-racy", sj(2) + jj(2), [L("read", "l"), wr("c"), L("unlockr", "l")], [L("read", "l"), rd("c"), L("unlockr", "l")]))
+    # atomic flag, every ordering pair
+    for w, r in itertools.product(ST_ORDS, LD_ORDS):
+        A(P(f"flag[{w},{r}]", sj(2) + jj(2), [wr("c"), st("x", 1, w)], [ld("x", r), br(1, 1, 1), rd("c")]))
+    for f1, f2 in [("rel", "acq"), ("acqrel", "acqrel"), ("sc", "sc"), ("acq", "rel"), ("rel", "rel")]:
+        A(P(f"flag+fences[{f1},{f2}]", sj(2) + jj(2), [wr("c"), fence(f1), st("x", 1)],
+            [ld("x"), br(1, 1, 2), fence(f2), rd("c")]))
+    A(P("flag-await-acq", sj(2) + jj(2), [wr("c"), st("x", 1, "rel")], [await_("x", "acq"), rd("c")]))
+    A(P("flag-await-rlx", sj(2) + jj(2), [wr("c"), st("x", 1, "rel")], [await_("x", "rlx"), rd("c")]))
+    # RMW chains / release sequences
+    A(P("relseq-rmw-ok", sj(3) + jj(3), [wr("c"), st("x", 1, "rel")], [fadd("x", 10)], [ld("x", "acq"), br(1, 11, 1), rd("c")]))
+    A(P("relseq-broken-racy", sj(3) + jj(3), [wr("c"), st("x", 1, "rel")], [await_("x", "rlx"), st("x", 2)],
+        [ld("x", "acq"), br(1, 2, 1), rd("c")]))
+    A(P("cas-handover-ok", sj(2) + jj(2), [wr("c"), cas("x", 0, 1, "rel", "rlx")], [cas("x", 1, 2, "acq", "rlx"), br(1, 1, 1), rd("c")]))
+    A(P("cas-handover-racy", sj(2) + jj(2), [wr("c"), cas("x", 0, 1, "rlx", "rlx")], [cas("x", 1, 2, "acq", "rlx"), br(1, 1, 1), rd("c")]))
+    # multi-hop message passing
+    A(P("2hop-ok", sj(3) + jj(3), [wr("c"), st("x", 1, "rel")], [await_("x", "acq"), st("y", 1, "rel")], [await_("y", "acq"), rd("c")]))
+    A(P("2hop-rlxmid-racy", sj(3) + jj(3), [wr("c"), st("x", 1, "rel")], [await_("x", "rlx"), st("y", 1, "rel")],
+        [await_("y", "acq"), rd("c")]))
+    A(P("C04-F2-shape-racy", sj(3) + jj(3), [wr("c"), st("x", 1, "rel")], [await_("x", "rlx"), st("z", 1, "rel")],
+        [await_("z", "acq"), fence("acq"), rd("c")]))
+    A(P("2hop-fence-ok", sj(3) + jj(3), [wr("c"), st("x", 1, "rel")], [await_("x", "rlx"), fence("acq"), st("z", 1, "rel")],
+        [await_("z", "acq"), rd("c")]))
+    # channel
+    A(P("chan-ok", [spawn(2), L("recv", "ch"), rd("c"), join(2), L("droprx", "ch")], [wr("c"), L("send", "ch", v=1)]))
+    A(P("chan-racy", [spawn(2), L("tryrecv", "ch"), rd("c"), join(2), L("droprx", "ch")], [wr("c"), L("send", "ch", v=1)]))
+    A(P("chan-2msg-ok", [spawn(2), spawn(3), L("recv", "ch"), L("recv", "ch"), rd("c"), rd("d"), join(2), join(3), L("droprx", "ch")],
+        [wr("c"), L("send", "ch", v=1)], [wr("d"), L("send", "ch", v=2)]))
+    # park / unpark (the parker blocks nowhere else)
+    A(P("park-ok", [spawn(3), spawn(2), join(2), join(3)], [wr("c"), unpark(3)], [L("park"), rd("c")]))
+    A(P("park-racy", [spawn(3), spawn(2), join(2), join(3)], [wr("c"), unpark(3)], [rd("c"), L("park")]))
+    A(P("unpark-nopark-racy", [spawn(3), spawn(2), join(2), join(3)], [wr("c"), unpark(3)], [ld("x"), rd("c")]))
+    # condvar (mutex protects; never racy)
+    A(P("cv-ok", sj(2) + jj(2), [L("lock", "m"), wr("c"), L("notify1", "cv"), L("unlock", "m")],
+        [L("lock", "m"), rd("c"), L("unlock", "m")]))
+    # Atomic::with_mut / unsync_load against atomic accesses
+    A(P("withmut-ok", [spawn(2), join(2), L("wmut", "x", v=5), ld("x")], [st("x", 1)]))
+    A(P("withmut-racy", [spawn(2), L("wmut", "x", v=5), join(2)], [st("x", 1)]))
+    A(P("withmut-load-racy", [spawn(2), L("wmut", "x", v=5), join(2)], [ld("x")]))
+    A(P("uld-ok", [spawn(2), join(2), L("uld", "x")], [st("x", 1)]))
+    A(P("uld-racy", [spawn(2), L("uld", "x"), join(2)], [st("x", 1)]))
+    A(P("uld-ld-ok", [spawn(2), L("uld", "x"), join(2)], [ld("x")]))
+    A(P("withmut-synced-ok", [spawn(2), L("wmut", "x", v=5), st("y", 1, "rel"), join(2)], [await_("y", "acq"), ld("x")]))
+    return out
+
+
+def random_race(rng, nspawn):
+    """cells accessed with and without synchronisation, atomics with random orderings"""
+    g = SyncGen(rng, ["atom", "mutex", "cell"], nspawn, 7 if nspawn == 2 else 6, sc_atoms=False)
+    p = g.gen()
+    # sprinkle raw cell accesses
+    for th in p["threads"][1:]:
+        if rng.random() < 0.8:
+            th.insert(rng.randint(0, len(th)), rng.choice([rd("c"), wr("c"), rd("c")]))
+    if rng.random() < 0.5:
+        m = p["threads"][0]
+        k = rng.randint(0, len(m))
+        m.insert(k, rng.choice([rd("c"), wr("c")]))
+    return fix_br(p)
+
+
+def fix_br(p):
+    """recompute br register indices after instructions were inserted (a br tests the last result before it)"""
+    for th in p["threads"]:
+        n = 0
+        for i in th:
+            if i["op"] == "br":
+                i["r"] = n
+            if i["op"] in RET_OPS:
+                n += 1
+    return p
+
+
+def races(tier, seed):
+    rng = random.Random(seed * 31337 + 5)
+    progs = race_idioms()
+    for k in range(40 if tier == "quick" else 500):
+        p = random_race(rng, rng.choice([2, 2, 3]))
+        p["name"] = f"rand{k}"
+        progs.append(p)
+    return [normalize(p) for p in progs]
+
+
+SJ = lambda n: [spawn(t) for t in range(2, n + 2)]
+JJ = lambda n: [join(t) for t in range(2, n + 2)]
+CS = lambda m, *body: [L("lock", m)] + list(body) + [L("unlock", m)]
+
+
+def blocking_shapes():
+    out = []
+    A = out.append
+    A(P("lock-inversion", SJ(2) + JJ(2), CS("m", *CS("n")), CS("n", *CS("m"))))
+    A(P("lock-order-ok", SJ(2) + JJ(2), CS("m", *CS("n")), CS("m", *CS("n"))))
+    A(P("lock-inversion-3", SJ(3) + JJ(3), CS("m", *CS("n")), CS("n", *CS("k")), CS("k", *CS("m"))))
+    A(P("lock-inversion-guarded", SJ(2) + JJ(2), CS("g", *CS("m", *CS("n"))), CS("g", *CS("n", *CS("m")))))
+    A(P("recv-nosender", [spawn(2), L("recv", "ch"), join(2)], [ld("x")]))
+    A(P("recv-sender", [spawn(2), L("recv", "ch"), join(2), L("droprx", "ch")], [L("send", "ch", v=1)]))
+    A(P("recv-2-of-1", [spawn(2), L("recv", "ch"), L("recv", "ch"), join(2)], [L("send", "ch", v=1)]))
+    A(P("park-nounpark", [spawn(2), join(2)], [L("park")]))
+    A(P("park-unpark", [spawn(2), unpark(2), join(2)], [L("park")]))
+    A(P("park-unpark-early-late", [spawn(2), spawn(3), join(2), join(3)], [L("park"), ld("x")], [st("x", 1), unpark(2)]))
+    A(P("park-twice-one-unpark", [spawn(2), unpark(2), join(2)], [L("park"), L("park")]))
+    A(P("park-twice-two-unparks", [spawn(2), unpark(2), unpark(2), join(2)], [L("park"), L("park")]))
+    A(P("park-twice-unparks-2threads", [spawn(2), spawn(3), unpark(2), join(2), join(3)], [L("park"), L("park")], [unpark(2)]))
+    A(P("nwait-nonotify", [spawn(2), join(2)], [L("nwait", "nt")]))
+    A(P("nwait-notify", [spawn(2), L("notify", "nt"), join(2)], [L("nwait", "nt")]))
+    A(P("nwait-twice-one-notify", [spawn(2), L("notify", "nt"), join(2)], [L("nwait", "nt"), L("nwait", "nt")]))
+    A(P("cv-lost-notify", SJ(2) + JJ(2), CS("m", L("cvwait", "cv", o2="m")), CS("m", L("notify1", "cv"))))
+    A(P("cv-notify-outside-lock", SJ(2) + JJ(2), CS("m", L("cvwait", "cv", o2="m")), [L("notify1", "cv")]))
+    A(P("cv-two-waiters-one-notify", SJ(3) + JJ(3), CS("m", L("cvwait", "cv", o2="m")), CS("m", L("cvwait", "cv", o2="m")),
+        CS("m", L("notify1", "cv"))))
+    A(P("cv-two-waiters-notifyall", SJ(3) + JJ(3), CS("m", L("cvwait", "cv", o2="m")), CS("m", L("cvwait", "cv", o2="m")),
+        CS("m", L("notifyall", "cv"))))
+    A(P("rw-mutex-inversion", SJ(2) + JJ(2), [L("read", "l")] + CS("m") + [L("unlockr", "l")],
+        [L("lock", "m"), L("write", "l"), L("unlockw", "l"), L("unlock", "m")]))
+    A(P("rw-readers-ok", SJ(2) + JJ(2), [L("read", "l")] + CS("m") + [L("unlockr", "l")],
+        [L("lock", "m"), L("read", "l"), L("unlockr", "l"), L("unlock", "m")]))
+    A(P("write-write-ok", SJ(2) + JJ(2), [L("write", "l"), ld("x"), L("unlockw", "l")], [L("write", "l"), ld("x"), L("unlockw", "l")]))
+    A(P("chan-lock-cycle", [spawn(2), L("lock", "m"), L("recv", "ch"), L("unlock", "m"), join(2), L("droprx", "ch")],
+        CS("m", L("send", "ch", v=1))))
+    A(P("await-never-deadlock-free", SJ(2) + JJ(2), [st("x", 1, "rel")], [await_("x", "acq")]))
+    # --- shapes of the open findings F5 / F8 / F10 (park token vs other blocking)
+    A(P("F5-unpark-thread-in-join", [spawn(2), join(2)], [unpark(1)]))
+    A(P("F5-unpark-thread-in-lock", [spawn(2), spawn(3), join(2), join(3)], CS("m", ld("x"), unpark(3)), CS("m", ld("x"))))
+    A(P("F8-token-lost-on-mutex", [spawn(2), L("lock", "m"), L("unlock", "m"), L("park"), join(2)], CS("m", unpark(1))))
+    A(P("F10-stale-token-cvwait", [spawn(3), spawn(2), join(2), join(3)], [unpark(3)], CS("m", L("cvwait", "cv", o2="m"))))
+    return out
+
+
+def blocking(tier, seed):
+    rng = random.Random(seed * 65537 + 11)
+    progs = blocking_shapes()
+    mixes = [["mutex"], ["mutex", "chan"], ["park", "mutex"], ["park", "notify"], ["mutex", "cv"], ["rw", "mutex"],
+             ["chan", "notify", "park"], ["mutex", "cv", "park", "chan"]]
+    per = 6 if tier == "quick" else 80
+    for feats in mixes:
+        for k in range(per):
+            n = rng.choice([2, 2, 3])
+            p = gen_sync(rng, feats, n, 7 if n == 2 else 6)
+            p["name"] = "+".join(feats) + f"#{k}"
+            progs.append(p)
+    return [normalize(p) for p in progs]
+
+
+def lock_shapes():
+    out = []
+    A = out.append
+    A(P("mutex-3", SJ(3) + JJ(3), CS("m", wr("c_m"), ld("x")), CS("m", wr("c_m"), st("x", 1)), CS("m", wr("c_m"))))
+    A(P("mutex-nested", SJ(2) + JJ(2), CS("m", wr("c_m"), *CS("n", wr("c_n"))), CS("m", *CS("n", wr("c_n")), wr("c_m"))))
+    A(P("mutex-overlap", SJ(2) + JJ(2), [L("lock", "m"), L("lock", "n"), wr("c_m"), L("unlock", "m"), wr("c_n"), L("unlock", "n")],
+        CS("m", wr("c_m")) + CS("n", wr("c_n"))))
+    A(P("trylock-held", SJ(2) + JJ(2), CS("m", ld("x"), wr("c_m")), [L("trylock", "m"), br(1, 1, 2), wr("c_m"), L("unlock", "m")]))
+    A(P("trylock-both", SJ(2) + JJ(2), [L("trylock", "m"), br(1, 1, 3), ld("x"), wr("c_m"), L("unlock", "m")],
+        [L("trylock", "m"), br(1, 1, 3), ld("x"), wr("c_m"), L("unlock", "m")]))
+    A(P("rw-2r-1w", SJ(3) + JJ(3), [L("read", "l"), ld("x"), rd("c_l"), L("unlockr", "l")], [L("read", "l"), ld("x"), rd("c_l"), L("unlockr", "l")],
+        [L("write", "l"), ld("x"), wr("c_l"), L("unlockw", "l")]))
+    A(P("rw-tryread-writer", SJ(2) + JJ(2), [L("write", "l"), ld("x"), wr("c_l"), L("unlockw", "l")],
+        [L("tryread", "l"), br(1, 1, 2), rd("c_l"), L("unlockr", "l")]))
+    A(P("rw-trywrite-reader", SJ(2) + JJ(2), [L("read", "l"), ld("x"), rd("c_l"), L("unlockr", "l")],
+        [L("trywrite", "l"), br(1, 1, 2), wr("c_l"), L("unlockw", "l")]))
+    A(P("rw-trywrite-writer", SJ(2) + JJ(2), [L("write", "l"), ld("x"), wr("c_l"), L("unlockw", "l")],
+        [L("trywrite", "l"), br(1, 1, 2), wr("c_l"), L("unlockw", "l")]))
+    A(P("rw-write-3", SJ(3) + JJ(3), [L("write", "l"), wr("c_l"), L("unlockw", "l")], [L("write", "l"), wr("c_l"), L("unlockw", "l")],
+        [L("write", "l"), wr("c_l"), L("unlockw", "l")]))
+    A(P("handover-chain", SJ(3) + JJ(3), CS("m", wr("c"), st("x", 1)), CS("m", ld("x"), wr("c")), CS("m", ld("x"), rd("c"))))
+    return out
+
+
+def locks(tier, seed):
+    rng = random.Random(seed * 257 + 13)
+    progs = lock_shapes()
+    mixes = [["mutex", "cell"], ["mutex", "try", "cell", "atom"], ["rw", "try", "cell", "atom"], ["mutex", "rw", "cell"],
+             ["mutex", "rw", "try", "cell", "atom"]]
+    per = 8 if tier == "quick" else 100
+    for feats in mixes:
+        for k in range(per):
+            n = rng.choice([2, 2, 3, 3])
+            p = gen_sync(rng, feats, n, 8 if n == 2 else 7)
+            p["name"] = "+".join(feats) + f"#{k}"
+            progs.append(p)
+    return [normalize(p) for p in progs]
+
+
+def wait_shapes():
+    out = blocking_shapes()
+    A = out.append
+    # hand-over of prior writes through each wake-up
+    A(P("cv-handover", SJ(2) + JJ(2), CS("m", L("cvwait", "cv", o2="m"), rd("c")), [wr("c")] + CS("m", L("notify1", "cv"))))
+    A(P("cv-handover-in-cs", SJ(2) + JJ(2), CS("m", L("cvwait", "cv", o2="m"), rd("c")), CS("m", wr("c"), L("notify1", "cv"))))
+    A(P("notify-handover", [spawn(2), wr("c"), L("notify", "nt"), join(2)], [L("nwait", "nt"), rd("c")]))
+    A(P("notify-before-wait", [L("notify", "nt"), spawn(2), join(2)], [L("nwait", "nt"), ld("x")]))
+    A(P("park-handover", [spawn(2), wr("c"), unpark(2), join(2)], [L("park"), rd("c")]))
+    A(P("join-handover", [spawn(2), join(2), rd("c")], [wr("c")]))
+    A(P("join-2", [spawn(2), spawn(3), join(3), join(2), rd("c"), rd("d")], [wr("c")], [wr("d")]))
+    A(P("cv-notifyall-3", [spawn(2), spawn(3), spawn(4), join(2), join(3), join(4)], CS("m", L("cvwait", "cv", o2="m"), ld("x")),
+        CS("m", L("cvwait", "cv", o2="m"), ld("x")), CS("m", st("x", 1), L("notifyall", "cv"))))
+    A(P("cv-notify1-twice", [spawn(2), spawn(3), spawn(4), join(2), join(3), join(4)], CS("m", L("cvwait", "cv", o2="m")),
+        CS("m", L("cvwait", "cv", o2="m")), CS("m", L("notify1", "cv"), L("notify1", "cv"))))
+    A(P("unpark-twice-coalesce", [spawn(2), unpark(2), unpark(2), join(2)], [L("park"), ld("x")]))
+    return out
+
+
+def waits(tier, seed):
+    rng = random.Random(seed * 8191 + 17)
+    progs = wait_shapes()
+    mixes = [["mutex", "cv"], ["mutex", "cv", "cell"], ["notify", "atom"], ["park", "atom"], ["park", "notify", "mutex", "cv"]]
+    per = 8 if tier == "quick" else 100
+    for feats in mixes:
+        for k in range(per):
+            n = rng.choice([2, 2, 3])
+            p = gen_sync(rng, feats, n, 7 if n == 2 else 6, sc_atoms=False)
+            p["name"] = "+".join(feats) + f"#{k}"
+            progs.append(p)
+    return [normalize(p) for p in progs]
+
+
+def chan_shapes():
+    out = []
+    A = out.append
+    A(P("1s-1r", [spawn(2), L("recv", "ch"), join(2), L("droprx", "ch")], [L("send", "ch", v=1)]))
+    A(P("2s-fifo", [spawn(2), L("recv", "ch"), L("recv", "ch"), join(2), L("droprx", "ch")], [L("send", "ch", v=1), L("send", "ch", v=2)]))
+    A(P("2senders", [spawn(2), spawn(3), L("recv", "ch"), L("recv", "ch"), join(2), join(3), L("droprx", "ch")],
+        [L("send", "ch", v=1)], [L("send", "ch", v=2)]))
+    A(P("3senders", [spawn(2), spawn(3), spawn(4), L("recv", "ch"), L("recv", "ch"), L("recv", "ch"), join(2), join(3), join(4), L("droprx", "ch")],
+        [L("send", "ch", v=1)], [L("send", "ch", v=2)], [L("send", "ch", v=3)]))
+    A(P("2senders-2each", [spawn(2), spawn(3), L("recv", "ch"), L("recv", "ch"), L("recv", "ch"), L("recv", "ch"), join(2), join(3), L("droprx", "ch")],
+        [L("send", "ch", v=1), L("send", "ch", v=2)], [L("send", "ch", v=3), L("send", "ch", v=4)]))
+    A(P("leftover-leak", [spawn(2), L("recv", "ch"), join(2)], [L("send", "ch", v=1), L("send", "ch", v=2)]))
+    A(P("leftover-drained", [spawn(2), L("recv", "ch"), join(2), L("droprx", "ch")], [L("send", "ch", v=1), L("send", "ch", v=2)]))
+    A(P("recv-more-than-sent", [spawn(2), L("recv", "ch"), L("recv", "ch"), join(2)], [L("send", "ch", v=1)]))
+    A(P("hb-send-recv", [spawn(2), L("recv", "ch"), rd("c"), join(2), L("droprx", "ch")], [wr("c"), L("send", "ch", v=1)]))
+    A(P("hb-later-recv", [spawn(2), spawn(3), L("recv", "ch"), L("recv", "ch"), rd("c"), rd("d"), join(2), join(3), L("droprx", "ch")],
+        [wr("c"), L("send", "ch", v=1)], [wr("d"), L("send", "ch", v=2)]))
+    A(P("receiver-in-thread", [spawn(2), spawn(3), join(2), join(3)], [L("recv", "ch"), L("recv", "ch"), L("droprx", "ch")],
+        [L("send", "ch", v=1), L("send", "ch", v=2)]))
+    A(P("tryrecv-after-join", [spawn(2), join(2), L("tryrecv", "ch"), L("tryrecv", "ch"), L("droprx", "ch")], [L("send", "ch", v=1)]))
+    A(P("send-under-lock", [spawn(2), spawn(3), L("recv", "ch"), L("recv", "ch"), join(2), join(3), L("droprx", "ch")],
+        CS("m", L("send", "ch", v=1)), CS("m", L("send", "ch", v=2))))
+    # --- shapes of the open findings F9 / F11
+    A(P("F9-tryrecv-vs-send", [spawn(2), L("tryrecv", "ch"), join(2), L("droprx", "ch")], [L("send", "ch", v=5)]))
+    A(P("F9-tryrecv-twice", [spawn(2), L("tryrecv", "ch"), L("tryrecv", "ch"), join(2), L("droprx", "ch")], [L("send", "ch", v=5), L("send", "ch", v=6)]))
+    A(P("F11-send-after-droprx", [L("droprx", "ch"), L("send", "ch", v=1)]))
+    A(P("F11-send-races-droprx", [spawn(2), L("droprx", "ch"), join(2)], [L("send", "ch", v=1)]))
+    return out
+
+
+def chans(tier, seed):
+    rng = random.Random(seed * 131 + 19)
+    progs = chan_shapes()
+    mixes = [["chan"], ["chan", "atom"], ["chan", "mutex"], ["chan", "cell", "mutex"]]
+    per = 10 if tier == "quick" else 120
+    for feats in mixes:
+        for k in range(per):
+            n = rng.choice([2, 2, 3, 3])
+            p = gen_sync(rng, feats, n, 7 if n == 2 else 6, sc_atoms=False)
+            p["name"] = "+".join(feats) + f"#{k}"
+            progs.append(p)
+    return [normalize(p) for p in progs]
+
+
+def arc_shapes():
+    out = []
+    A = out.append
+    a3 = {"A": {"h0": ["a1", "a2", "a3"], "cell": "pc"}}
+    a2 = {"A": {"h0": ["a1", "a2"], "cell": "pc"}}
+    a1 = {"A": {"h0": ["a1"], "cell": "pc"}}
+    D = lambda h: L("adrop", h)
+    A(P("drop-3", SJ(2) + [rd("pc"), D("a1")] + JJ(2), [rd("pc"), D("a2")], [rd("pc"), D("a3")], arcs=a3))
+    A(P("drop-after-join", SJ(2) + JJ(2) + [L("acount", "a1"), D("a1")], [rd("pc"), D("a2")], [rd("pc"), D("a3")], arcs=a3))
+    A(P("clone-in-thread", [spawn(2), join(2), L("acount", "a1"), D("a1")], [L("aclone", "a2", o2="b2"), L("acount", "b2"), D("b2"), D("a2")], arcs=a2))
+    A(P("count-vs-drop", [spawn(2), L("acount", "a1"), join(2), D("a1")], [D("a2")], arcs=a2))
+    A(P("count-vs-clone", [spawn(2), L("acount", "a1"), join(2), D("a1")], [L("aclone", "a2", o2="b2"), D("b2"), D("a2")], arcs=a2))
+    A(P("getmut-vs-drop", [spawn(2), L("agetmut", "a1"), join(2), L("agetmut", "a1"), D("a1")], [rd("pc"), D("a2")], arcs=a2))
+    A(P("unwrap-vs-drop", [spawn(2), L("aunwrap", "a1"), br(1, 0, 1), D("a1"), join(2)], [rd("pc"), D("a2")], arcs=a2))
+    A(P("unwrap-after-join", [spawn(2), join(2), L("aunwrap", "a1")], [rd("pc"), D("a2")], arcs=a2))
+    A(P("unwrap-both", SJ(2) + JJ(2), [L("aunwrap", "a1"), br(1, 0, 1), D("a1")], [L("aunwrap", "a2"), br(1, 0, 1), D("a2")], arcs=a2))
+    A(P("raw-roundtrip", [spawn(2), L("aintoraw", "a1"), L("afromraw", "a1"), L("acount", "a1"), D("a1"), join(2)], [D("a2")], arcs=a2))
+    A(P("raw-inc-dec", [L("aintoraw", "a1"), L("aclone", "a1", o2="r1"), spawn(2), L("afromraw", "a1"), D("a1"), join(2)], [D("r1")], arcs=a1))
+    A(P("ptr-eq", [L("aclone", "a1", o2="b1"), L("aptreq", "a1", o2="b1"), L("aptreq", "a1", o2="z1"), D("a1"), D("b1"), D("z1")],
+        arcs={"A": {"h0": ["a1"], "cell": ""}, "Z": {"h0": ["z1"], "cell": ""}}))
+    A(P("two-arcs", SJ(2) + JJ(2), [D("a1"), L("acount", "z1"), D("z1")], [L("acount", "a2"), D("a2"), D("z2")],
+        arcs={"A": {"h0": ["a1", "a2"], "cell": "pc"}, "Z": {"h0": ["z1", "z2"], "cell": "pd"}}))
+    A(P("moved-into-thread", [I("spawn", "a2", v=2), rd("pc"), D("a1"), join(2)], [rd("pc"), D("a2")], arcs=a2))
+    return out
+
+
+def arcs_family(tier, seed):
+    rng = random.Random(seed * 977 + 23)
+    progs = arc_shapes()
+    for k in range(25 if tier == "quick" else 300):
+        n = rng.choice([2, 2, 3])
+        p = gen_sync(rng, rng.choice([["arc"], ["arc", "atom"], ["arc", "mutex"]]), n, 7 if n == 2 else 6)
+        p["name"] = f"rand{k}"
+        progs.append(p)
+    return [normalize(p) for p in progs]
+
+
+def leak_shapes():
+    out = []
+    A = out.append
+    a2 = {"A": {"h0": ["a1", "a2"], "cell": ""}}
+    D = lambda h: L("adrop", h)
+    A(P("arc-all-dropped", SJ(1) + JJ(1) + [D("a1")], [D("a2")], arcs=a2))
+    A(P("arc-one-kept", SJ(1) + JJ(1), [D("a2")], arcs=a2))
+    A(P("arc-both-kept", SJ(1) + JJ(1), [ld("x")], arcs=a2))
+    # schedule-dependent: the handle is dropped only when the CAS wins
+    A(P("arc-drop-if-cas-wins", SJ(2) + JJ(2) + [D("a1")], [cas("x", 0, 1), br(1, 0, 1), D("a2")], [cas("x", 0, 2)], arcs=a2))
+    A(P("arc-drop-if-seen", SJ(2) + JJ(2) + [D("a1")], [ld("x", "acq"), br(1, 1, 1), D("a2")], [st("x", 1, "rel")], arcs=a2))
+    A(P("arc-unwrap-releases", [spawn(2), join(2), L("aunwrap", "a1")], [D("a2")], arcs=a2))
+    A(P("arc-unwrap-fails-keeps", [L("aunwrap", "a1"), spawn(2), join(2)], [D("a2")], arcs=a2))
+    A(P("arc-raw-released", [L("aintoraw", "a1"), L("afromraw", "a1"), D("a1"), D("a2")], arcs=a2))
+    A(P("arc-raw-leaked", [L("aintoraw", "a1"), D("a2")], arcs=a2))
+    A(P("arc-dec-strong", [L("aintoraw", "a1"), D("a1"), D("a2")], arcs=a2))
+    A(P("track-dropped", [L("tnew", "k"), spawn(2), join(2)], [L("tdrop", "k")]))
+    A(P("track-kept", [L("tnew", "k"), spawn(2), join(2)], [ld("x")]))
+    A(P("track-forgotten", [L("tnew", "k"), L("tforget", "k")]))
+    A(P("track-drop-if-cas-wins", [L("tnew", "k")] + SJ(2) + JJ(2), [cas("x", 0, 1), br(1, 0, 1), L("tdrop", "k")], [cas("x", 0, 2)]))
+    A(P("msg-left", [spawn(2), join(2)], [L("send", "ch", v=1)]))
+    A(P("msg-drained-by-drop", [spawn(2), join(2), L("droprx", "ch")], [L("send", "ch", v=1), L("send", "ch", v=2)]))
+    A(P("msg-received", [spawn(2), L("recv", "ch"), join(2)], [L("send", "ch", v=1)]))
+    A(P("msg-left-if-late", [spawn(2), L("tryrecv", "ch"), join(2)], [L("send", "ch", v=1)]))
+    A(P("F11-send-after-droprx", [L("droprx", "ch"), L("send", "ch", v=1)]))
+    return out
+
+
+def leaks(tier, seed):
+    rng = random.Random(seed * 3571 + 29)
+    progs = leak_shapes()
+    for k in range(25 if tier == "quick" else 300):
+        n = rng.choice([2, 2, 3])
+        p = gen_sync(rng, rng.choice([["arc", "atom"], ["arc"], ["chan", "atom"], ["arc", "chan"]]), n, 7 if n == 2 else 6,
+                     sc_atoms=False)
+        # drop some release at random so that a leak becomes possible
+        for th in p["threads"]:
+            for j, i in enumerate(list(th)):
+                if i["op"] in ("adrop", "droprx") and rng.random() < 0.25:
+                    th[j] = I("nop")
+        p["name"] = f"rand{k}"
+        progs.append(p)
+    return [normalize(fix_br(p)) for p in progs]
